@@ -92,7 +92,7 @@ def coutput(o: dict) -> str:
 # ------------------------------------------------------------------------------------ generators
 
 CONTENTS = ["", "a", "a\n", "b\n", "a\nb", "a\nb\n", "a\r\nb", "a\r\nb\r\n", "\n", "a\n\n", "x y\n  z\n",
-            "a\rb", "a\x0bb\n", "b"]
+            "a\rb", "a\x0bb\n", "b", "a \n", "a\t\n", "a\n \n", " a\n"]
 RELOADS = ["", "", "systemctl reload x", "r1\nr2", "svc restart"]
 PATHS = ["/etc/a", "/etc/b.conf", "/c"]
 
@@ -107,6 +107,25 @@ def eol_variants(s: str) -> list[str]:
         out.append(s.replace("\r\n", "\n").replace("\n", "\r\n"))
         out.append(s.replace("\r\n", "\n"))
     out.append(s + "\n\n")
+    return [v for v in out if v != s]
+
+
+def ws_variants(s: str) -> list[str]:
+    """the same text with blanks/tabs added at the end (or start) of a line, or a blank-only line for an empty one:
+    differences a differ that normalises white space would hide"""
+    out = []
+    for nl in ("\r\n", "\n"):
+        if nl in s:
+            out += [s.replace(nl, " " + nl, 1), s.replace(nl, "\t" + nl, 1)]
+            break
+    else:
+        out += [s + " ", s + "\t"]
+    if "\n\n" in s:
+        out.append(s.replace("\n\n", "\n \n", 1))
+    if s.endswith(" \n") or s.endswith("\t\n"):
+        out.append(s[:-2] + "\n")
+    if s and not s[0].isspace():
+        out.append(" " + s)
     return [v for v in out if v != s]
 
 
@@ -143,8 +162,11 @@ def rand_old(rng, gens: list[dict]) -> dict:
             old[p] = None
         elif r < 0.50:
             old[p] = new
-        elif r < 0.72:
+        elif r < 0.66:
             vs = eol_variants(new)
+            old[p] = rng.choice(vs) if vs else new
+        elif r < 0.76:
+            vs = ws_variants(new)
             old[p] = rng.choice(vs) if vs else new
         else:
             old[p] = rng.choice(CONTENTS)
